@@ -30,6 +30,160 @@ Proof.
   intros H. apply map_ext_in. intros i Hi. apply in_seq in Hi. apply H. lia.
 Qed.
 
+(* ---- lifetime model (rs_* of C08_Model): HEAD = rs_run true ----------------------- *)
+Lemma rs_find_id st id o : rs_find st id = Some o -> rs_id o = id.
+Proof. unfold rs_find. intros H. apply find_some in H. destruct H as [_ H]. now apply Nat.eqb_eq in H. Qed.
+
+Lemma rs_find_in st id o : rs_find st id = Some o -> In o st.
+Proof. unfold rs_find. intros H. now apply find_some in H. Qed.
+
+Lemma rs_find_upd st id f j : (forall o, rs_id (f o) = rs_id o) ->
+  rs_find (rs_upd st id f) j =
+  option_map (fun o => if Nat.eqb (rs_id o) id then f o else o) (rs_find st j).
+Proof.
+  intros Hf. unfold rs_find, rs_upd. induction st as [|a st IH]; cbn; auto.
+  assert (E : rs_id (if Nat.eqb (rs_id a) id then f a else a) = rs_id a) by (destruct (Nat.eqb (rs_id a) id); auto).
+  rewrite E. destruct (Nat.eqb (rs_id a) j); auto.
+Qed.
+
+(* invariant of HEAD: every closure reads the object it lives in; the flag is always written *)
+Definition rs_ok (o : rs_obj) : Prop := rs_target o = rs_id o /\ rs_valid o <> None.
+
+Lemma rs_upd_ok st id f : Forall rs_ok st -> (forall o, rs_ok o -> rs_ok (f o)) -> Forall rs_ok (rs_upd st id f).
+Proof.
+  intros H Hf. unfold rs_upd. apply Forall_map. eapply Forall_impl; [|exact H].
+  intros o Ho. cbn. destruct (Nat.eqb (rs_id o) id); auto.
+Qed.
+
+Lemma rs_step_ok st op : Forall rs_ok st -> Forall rs_ok (rs_step true st op).
+Proof.
+  intros H. destruct op as [id seed k|dst src|dst src|id v|id|id]; cbn.
+  - constructor; [split; cbn; [reflexivity|discriminate]|exact H].
+  - destruct (rs_find st src) as [o|] eqn:E; [|exact H].
+    assert (Ho : rs_ok o) by (rewrite Forall_forall in H; apply H; eapply rs_find_in; eauto).
+    constructor; [split; cbn; [reflexivity|apply Ho]|].
+    apply rs_upd_ok; auto; try (intros x [A B]; split; auto).
+  - destruct (rs_find st src) as [o|] eqn:E; [|exact H].
+    assert (Ho : rs_ok o) by (rewrite Forall_forall in H; apply H; eapply rs_find_in; eauto).
+    apply rs_upd_ok; [apply rs_upd_ok; auto|].
+    + intros x _. split; cbn; [reflexivity|apply Ho].
+    + intros x [A B]. destruct x; split; auto.
+  - apply rs_upd_ok; auto. intros x [A B]. split; cbn; [exact A|discriminate].
+  - destruct (rs_find st id) as [o|]; [|exact H]. apply rs_upd_ok; auto; try (intros x [A B]; split; auto).
+  - apply rs_upd_ok; auto; try (intros x [A B]; split; auto).
+Qed.
+
+Lemma rs_run_ok ops : Forall rs_ok (rs_run true ops).
+Proof.
+  unfold rs_run. assert (G : forall st, Forall rs_ok st -> Forall rs_ok (fold_left (rs_step true) ops st)).
+  { induction ops as [|op ops IH]; intros st H; cbn; auto. apply IH. now apply rs_step_ok. }
+  apply G. constructor.
+Qed.
+
+(* a live GPFCorrection draws from its own generator, after any sequence of
+   constructions, move constructions, move assignments, corrections, draws, destructions *)
+Lemma draws_from_own_generator ops id o :
+  rs_find (rs_run true ops) id = Some o -> rs_alive o = true ->
+  rs_draw_source (rs_run true ops) id = Some id.
+Proof.
+  intros Hf Ha. pose proof (rs_run_ok ops) as H. rewrite Forall_forall in H.
+  destruct (H o (rs_find_in _ _ _ Hf)) as [Ht _]. pose proof (rs_find_id _ _ _ Hf) as Hid.
+  unfold rs_draw_source. rewrite Hf, Ht, Hid, Hf, Ha. now rewrite Hid.
+Qed.
+
+(* a draw advances the generator of the drawing object only *)
+Lemma draw_touches_own_generator_only ops id j :
+  j <> id ->
+  rs_find (rs_step true (rs_run true ops) (RsDraw id)) j = rs_find (rs_run true ops) j.
+Proof.
+  intros Hj. unfold rs_step. destruct (rs_find (rs_run true ops) id) as [o|] eqn:E; auto.
+  pose proof (rs_run_ok ops) as H. rewrite Forall_forall in H.
+  destruct (H o (rs_find_in _ _ _ E)) as [Ht _]. rewrite Ht, (rs_find_id _ _ _ E).
+  rewrite rs_find_upd by reflexivity.
+  destruct (rs_find (rs_run true ops) j) as [r|] eqn:Ej; cbn; auto.
+  rewrite (rs_find_id _ _ _ Ej). apply Nat.eqb_neq in Hj. now rewrite Hj.
+Qed.
+
+(* getLikelihood() never reads an unwritten flag, and a fresh object reports "invalid" *)
+Lemma reported_valid_defined ops id o :
+  rs_find (rs_run true ops) id = Some o -> rs_reported_valid (rs_run true ops) id <> None.
+Proof.
+  intros Hf. pose proof (rs_run_ok ops) as H. rewrite Forall_forall in H.
+  unfold rs_reported_valid. rewrite Hf. apply (H o (rs_find_in _ _ _ Hf)).
+Qed.
+
+Lemma fresh_reports_invalid ops id seed k :
+  rs_reported_valid (rs_run true (ops ++ [RsConstruct id seed k])) id = Some false.
+Proof.
+  unfold rs_run. rewrite fold_left_app. cbn. unfold rs_reported_valid, rs_find. cbn.
+  now rewrite Nat.eqb_refl.
+Qed.
+
+(* the move constructor: the new object continues the stream of the source with its own
+   copy of the generator, reads that copy, and owns the source's likelihood model *)
+Lemma move_construct_result st dst src o :
+  rs_find st src = Some o ->
+  rs_find (rs_step true st (RsMove dst src)) dst =
+  Some (mkRsObj dst true dst (rs_valid o) (rs_lik o) (rs_gen o)).
+Proof. intros H. cbn. rewrite H. unfold rs_find. cbn. now rewrite Nat.eqb_refl. Qed.
+
+(* the move assignment transfers the likelihood model (and the generator state) and the
+   destination reads its own generator; the source is left without a likelihood model *)
+Lemma move_assign_transfers st dst src o d :
+  dst <> src -> rs_find st src = Some o -> rs_find st dst = Some d ->
+  let st' := rs_step true st (RsMoveAssign dst src) in
+  (exists d', rs_find st' dst = Some d' /\ rs_lik d' = rs_lik o /\ rs_gen d' = rs_gen o /\
+              rs_target d' = dst /\ rs_valid d' = rs_valid o) /\
+  (exists s', rs_find st' src = Some s' /\ rs_lik s' = None).
+Proof.
+  intros Hne Hs Hd. cbv zeta. unfold rs_step. rewrite Hs.
+  pose proof (rs_find_id _ _ _ Hs) as Is. pose proof (rs_find_id _ _ _ Hd) as Id.
+  assert (Ne1 : Nat.eqb dst src = false) by now apply Nat.eqb_neq.
+  assert (Ne2 : Nat.eqb src dst = false) by (apply Nat.eqb_neq; auto).
+  split.
+  - rewrite rs_find_upd by (intros x; reflexivity). rewrite rs_find_upd by reflexivity. rewrite Hd. cbn.
+    rewrite Id, Nat.eqb_refl. cbn. rewrite ?Id, Ne1.
+    eexists; split; [reflexivity|]. cbn. repeat split; auto.
+  - rewrite rs_find_upd by (intros x; reflexivity). rewrite rs_find_upd by reflexivity. rewrite Hs. cbn.
+    rewrite Is, Ne2. rewrite ?Is, Nat.eqb_refl.
+    eexists; split; [reflexivity|]. reflexivity.
+Qed.
+
+(* ---- regression: the same statements are FALSE of the transcription of the code before
+   the fix commits d193577 / 57c1b76 (rs_run false) -------------------------------------- *)
+Lemma pre_fix_draws_from_own_generator_refuted :
+  exists ops id, rs_find (rs_run false ops) id <> None /\
+                 (forall o, rs_find (rs_run false ops) id = Some o -> rs_alive o = true) /\
+                 rs_draw_source (rs_run false ops) id <> Some id /\
+                 rs_draw_source (rs_run false ops) id = None.
+Proof.
+  exists [RsConstruct 0 7 0; RsCorrect 0 true; RsMove 1 0; RsDestroy 0], 1. vm_compute.
+  repeat split; try discriminate. now intros o [= <-].
+Qed.
+
+Lemma pre_fix_fresh_likelihood_invalid_refuted :
+  exists ops id, rs_draw_source (rs_run false ops) id = Some id /\
+                 rs_reported_valid (rs_run false ops) id <> Some false /\
+                 rs_reported_valid (rs_run false ops) id = None.
+Proof. exists [RsConstruct 0 7 0], 0. vm_compute. repeat split; discriminate. Qed.
+
+(* move assignment, every object alive (no undefined behaviour): b = move(a); a = move(c);
+   a draw of b then read a's generator_ -- by now a copy of c's state (seed 3) -- advanced it
+   and left b's own copy untouched; and b kept its old likelihood model *)
+Lemma pre_fix_move_assign_refuted :
+  let ops := [RsConstruct 0 1 10; RsConstruct 1 2 11; RsMoveAssign 1 0;
+              RsConstruct 2 3 12; RsMoveAssign 0 2; RsDraw 1] in
+  option_map rs_lik (rs_find (rs_run false ops) 1) = Some (Some 11) /\
+  option_map rs_gen (rs_find (rs_run false ops) 1) = Some (1, 0) /\
+  option_map rs_gen (rs_find (rs_run false ops) 0) = Some (3, 1) /\
+  rs_draw_source (rs_run false ops) 1 = Some 0 /\
+  (* HEAD on the same operations *)
+  option_map rs_lik (rs_find (rs_run true ops) 1) = Some (Some 10) /\
+  option_map rs_gen (rs_find (rs_run true ops) 1) = Some (1, 1) /\
+  option_map rs_gen (rs_find (rs_run true ops) 0) = Some (3, 0) /\
+  rs_draw_source (rs_run true ops) 1 = Some 1.
+Proof. vm_compute. repeat split. Qed.
+
 Section Struct.
 Variable O : MatOps.
 Notation S := (sc O).
@@ -51,6 +205,9 @@ Proof.
   unfold belief_at.
   rewrite <- (map_map_seq fst (fun i => nth i g (dgc, s0 S))). now rewrite map_nth_seq.
 Qed.
+
+Lemma belief_at_nth (g : gmixture O n) i : belief_at g i = nth i (map fst g) dgc.
+Proof. unfold belief_at. now rewrite <- (map_nth fst). Qed.
 
 (* a wrapped step keeps the number of components when the object it reads and
    the object it writes have the same number of components *)
